@@ -5,6 +5,7 @@ import (
 	"encoding/json"
 	"encoding/xml"
 	"fmt"
+	"io"
 	"net/http"
 	"net/http/httptest"
 	"net/url"
@@ -267,8 +268,21 @@ func runC20(c *core.Ctx) {
 		note(c20Scenario(t, []c20Handler{hs[1], hs[2], hs[8], hs[7]}, tb, 30000))
 	})
 
+	// a service upload whose body arrives late - only after another request has been answered (a client that builds the metadata it
+	// uploads from what it first fetches from this server, or simply a slow link): nothing may wait for it while holding the registry
+	c.Group("upload-whose-body-arrives-after-another-request")
+	for _, up := range []int{0, 1} {
+		for _, other := range []int{3, 4, 7, 8, 12, 13, 14, 2} {
+			up, other := up, other
+			c.Case(fmt.Sprintf("late-body/%s-gated-on/%s", hs[up].name, hs[other].name), func(t *core.T) {
+				note(c20LateBody(t, hs[up], hs[other]))
+			})
+		}
+	}
+
 	c.Group("store-linearizability")
 	c20StorePrograms(c, note)
+	c20BigStore(c, note)
 
 	c.Note("schedules", float64(totalSched))
 	c.Note("scheduling_points", float64(totalPoints))
@@ -392,6 +406,83 @@ func c20Scenario(t *core.T, hs []c20Handler, pb, limit int) sched.Stats {
 	if st.Capped {
 		t.Outcome("capped")
 	}
+	return st
+}
+
+// gatedBody is a request body whose bytes become available only once gate can be taken (the scheduler sees the wait as a blocked thread).
+type gatedBody struct {
+	r    io.Reader
+	gate interface{}
+	done bool
+}
+
+func (g *gatedBody) Read(p []byte) (int, error) {
+	if !g.done {
+		g.done = true
+		h := sched.Hook()
+		h.MLock(g.gate)
+		h.MUnlock(g.gate)
+	}
+	return g.r.Read(p)
+}
+func (g *gatedBody) Close() error { return nil }
+
+// c20LateBody: request `up` (a PUT with a body) and request `other` run concurrently; other holds the gate from start to end, the body of up
+// can be read only when the gate is free. Every schedule must let both finish.
+func c20LateBody(t *core.T, up, other c20Handler) sched.Stats {
+	t.NonTrivial()
+	scen := up.name + "[body gated]||" + other.name
+	var obs [2]c20Obs
+	mk := func() []func() {
+		srv, _ := c20Server()
+		gate := new(int)
+		obs = [2]c20Obs{}
+		return []func(){
+			func() {
+				r := up.req()
+				r.Body = &gatedBody{r: r.Body, gate: gate}
+				w := &strictWriter{hdr: http.Header{}}
+				srv.ServeHTTP(w, r)
+				obs[0] = c20Obs{code: w.code, done: true}
+			},
+			func() {
+				h := sched.Hook()
+				h.MLock(gate)
+				w := &strictWriter{hdr: http.Header{}}
+				srv.ServeHTTP(w, other.req())
+				obs[1] = c20Obs{code: w.code, done: true}
+				h.MUnlock(gate)
+			},
+		}
+	}
+	reported := false
+	st := sched.Explore(mk, 2, 20000, func(x *sched.Execution, choices []int) bool {
+		if reported {
+			return true
+		}
+		switch {
+		case x.Diverged:
+			reported = true
+			t.Fail("C20/harness/replay-diverged", "scenario %s: a recorded prefix could not be replayed", scen)
+			return false
+		case len(x.Panics) > 0:
+			reported = true
+			t.Fail("C20/panic", "scenario %s, schedule %v: %v", scen, choices, x.Panics)
+		case x.Deadlock:
+			reported = true
+			t.Fail("C20/deadlock/upload-holds-the-registry-while-waiting-for-its-body", "scenario %s, schedule %v:\n%s\nno thread can proceed: %s", scen, choices, strings.Join(x.Trace, " -> "), x.DeadlockMsg)
+			t.Input("schedule", fmt.Sprint(choices))
+		case !obs[0].done || !obs[1].done || obs[0].code == 0 || obs[1].code == 0:
+			reported = true
+			t.Fail("C20/request-without-reply", "scenario %s, schedule %v: a request finished without a reply", scen, choices)
+		}
+		return true
+	})
+	t.Evals(st.Executions)
+	t.Impl(st.Points)
+	t.Compared()
+	t.Outcome("late-body-scenario")
+	t.Sample(map[string]interface{}{"scenario": scen, "schedules": st.Executions, "capped": st.Capped})
 	return st
 }
 
@@ -780,6 +871,90 @@ func c20StorePrograms(c *core.Ctx, note func(sched.Stats)) {
 					c.Case(fmt.Sprintf("store/3c/fresh=%v/pb=%d/%s", fresh, bound, progName(ps)), func(t *core.T) { runProg(t, ps, fresh, progName(ps), bound) })
 				}
 			}
+		}
+	}
+}
+
+// c20BigStore: List over a store holding more keys than any batch size an implementation might walk at a time (300 fillers + tokens),
+// concurrent with a writer that replaces token k-0 by k-1 one after the other. Any linearizable List shows, for every k, exactly one of the
+// two - or both while the pair is being replaced - never neither. (Go's map iteration order is not under the scheduler's control: the
+// schedules are enumerated exhaustively, the position of a key within one walk is whatever the runtime picks in that execution.)
+func c20BigStore(c *core.Ctx, note func(sched.Stats)) {
+	for _, nFill := range []int{300, 1000} {
+		for _, pairs := range []int{1, 3} {
+			nFill, pairs := nFill, pairs
+			c.Case(fmt.Sprintf("store/big/fillers=%d/replaced-pairs=%d", nFill, pairs), func(t *core.T) {
+				t.NonTrivial()
+				var store *samlidp.MemoryStore
+				var listed [][]string
+				mk := func() []func() {
+					store = &samlidp.MemoryStore{}
+					for i := 0; i < nFill; i++ {
+						store.Put(fmt.Sprintf("f/%04d", i), i)
+					}
+					for k := 0; k < 6; k++ {
+						store.Put(fmt.Sprintf("tok/%d-0", k), k)
+					}
+					listed = nil
+					return []func(){
+						func() {
+							for k := 0; k < pairs; k++ {
+								store.Put(fmt.Sprintf("tok/%d-1", k), k)
+								store.Delete(fmt.Sprintf("tok/%d-0", k))
+							}
+						},
+						func() {
+							for i := 0; i < 2; i++ {
+								ks, _ := store.List("tok/")
+								sort.Strings(ks)
+								listed = append(listed, ks)
+							}
+						},
+					}
+				}
+				failed := false
+				st := sched.Explore(mk, 2, 20000, func(x *sched.Execution, choices []int) bool {
+					if failed {
+						return true
+					}
+					if x.Deadlock || len(x.Panics) > 0 {
+						failed = true
+						t.Fail("C20/store/deadlock-or-panic", "big store, schedule %v: %s %v", choices, x.DeadlockMsg, x.Panics)
+						return true
+					}
+					for li, ks := range listed {
+						have := map[string]bool{}
+						for _, k := range ks {
+							have[k] = true
+						}
+						for k := 0; k < 6; k++ {
+							old, nw := have[fmt.Sprintf("%d-0", k)], have[fmt.Sprintf("%d-1", k)]
+							if !old && !nw || k >= pairs && (!old || nw) {
+								failed = true
+								t.Fail("C20/store/not-linearizable/list-over-a-big-store", "schedule %v (%s): List #%d returned %v: token %d shows neither its old nor its new key (the new one is written before the old one is deleted), or a token that nobody touched is missing", choices, strings.Join(x.Trace, " -> "), li, ks, k)
+								return true
+							}
+						}
+						// pairs are replaced in order: once pair k shows its new key only, every earlier pair does too
+						seenOld := false
+						for k := 0; k < pairs; k++ {
+							if have[fmt.Sprintf("%d-0", k)] {
+								seenOld = true
+							} else if seenOld {
+								failed = true
+								t.Fail("C20/store/not-linearizable/list-over-a-big-store", "schedule %v: List #%d returned %v: pair %d is already replaced although an earlier pair is not (replacement happens in order)", choices, li, ks, k)
+								return true
+							}
+						}
+					}
+					return true
+				})
+				note(st)
+				t.Evals(st.Executions)
+				t.Impl(st.Points)
+				t.Compared()
+				t.Sample(map[string]interface{}{"program": "big-store", "schedules": st.Executions, "capped": st.Capped})
+			})
 		}
 	}
 }
